@@ -1,7 +1,8 @@
 (* C28 -- BPE merging matches the reference merge algorithm.
    Only statements; every proof is `exact <lemma>`. *)
 From RV Require Import Prelude.
-From Bpe Require Import ModelBpe Ref_proofs Merge_proofs Encode_proofs Vocab_proofs.
+From Bpe Require Import ModelBpe Ref_proofs Merge_proofs Encode_proofs Vocab_proofs Oracle_proofs.
+From Bpe Require ModelC28.
 Open Scope N_scope.
 
 (* (1) one pass of the index loop with in-place removal (`while i < tokens.len() - 1 { .. }`)
@@ -65,6 +66,13 @@ Theorem C28_default_vocab_wellformed : forall merges,
   N.of_nat (length merges) + 256 <= 4294967296 ->
   NoDup (map fst (build_vocab merges None)) /\ vocab_inj (build_vocab merges None).
 Proof. exact default_vocab_wellformed. Qed.
+
+(* (8) the executable oracle of the correspondence check is sound: ids it accepts for a word
+       are the vocabulary ids of the reference's pieces for that word *)
+Theorem C28_oracle_sound : forall sv c w ids,
+  ModelC28.word_ok_v sv c w (Some ids) = true ->
+  map (v_get sv) (ModelC28.ref_pieces_v sv (ModelC28.m_opts c) w) = map Some ids.
+Proof. exact c28_word_ok_sound. Qed.
 
 (* non-vacuity: "aaab" with merges (a,a),(a,b): overlapping occurrences of (a,a) compete, the
    left one wins, then (a,b) applies; default vocabulary ids 256, 257 *)
